@@ -338,3 +338,43 @@ Section Within.
   Lemma Forall2_within0_eq l l' : Forall2 (W 0) l l' -> l' = l.
   Proof. induction 1 as [|a a' l l' Ha Hl IH]; [reflexivity|]. rewrite (within_0 _ _ Ha), IH. reflexivity. Qed.
 End Within.
+
+(* ---------- the generic theorems, closed ---------- *)
+Theorem rnd_rel_sign u rnd : 0 <= u < 1 -> rnd_rel u rnd ->
+  rnd 0 = 0 /\ (forall t, 0 < t -> 0 < rnd t) /\ (forall t, t < 0 -> rnd t < 0).
+Proof.
+  intros [U0 U1] REL. split; [now apply (rnd_rel_zero u)|].
+  split; intros t Ht; [now apply (rnd_rel_pos u U1) | now apply (rnd_rel_neg u U1)].
+Qed.
+
+Theorem rsum_bounds_std u rnd : 0 <= u < 1 -> rnd_rel u rnd ->
+  forall l, Forall (fun t => 0 <= t) l ->
+  (1 - u) ^ (Nat.pred (length l)) * sum l <= rsum rnd l <= (1 + u) ^ (Nat.pred (length l)) * sum l.
+Proof. intros [U0 U1] REL l. now apply rsum_bounds. Qed.
+
+Theorem rsum_terms_bounds_std u rnd : 0 <= u < 1 -> rnd_rel u rnd ->
+  forall e e' l l', 0 <= e -> 0 <= e' <= 1 ->
+  Forall2 (fun t t' => 0 <= t /\ (1 - e') * t <= t' <= (1 + e) * t) l l' ->
+  (1 - e') * (1 - u) ^ (Nat.pred (length l)) * sum l
+    <= rsum rnd l'
+    <= (1 + e) * (1 + u) ^ (Nat.pred (length l)) * sum l.
+Proof. intros [U0 U1] REL e e' l l'. now apply rsum_terms_bounds. Qed.
+
+(* terms at most k roundings deep: the closed form, no side condition on k, n, u *)
+Theorem rsum_terms_closed_std u rnd : 0 <= u < 1 -> rnd_rel u rnd ->
+  forall k l l',
+  Forall2 (fun t t' => 0 <= t /\ (1 - u) ^ k * t <= t' <= (1 + u) ^ k * t) l l' ->
+  (1 - u) ^ (k + Nat.pred (length l)) * sum l <= rsum rnd l' <= (1 + u) ^ (k + Nat.pred (length l)) * sum l
+  /\ Rabs (rsum rnd l' - sum l) <= ((1 + u) ^ (k + Nat.pred (length l)) - 1) * sum l.
+Proof.
+  intros [U0 U1] REL k l l' H2.
+  assert (HN : Forall (fun t => 0 <= t) l).
+  { induction H2 as [|t t' l l' [H0 _] _ IH]; constructor; assumption. }
+  assert (HW : Forall2 (within u k) l l').
+  { induction H2 as [|t t' l l' [H0 B] Hl IH]; constructor.
+    - now apply within_nonneg_intro.
+    - apply IH. now inversion HN. }
+  split.
+  - apply within_nonneg_elim; [now apply sum_nonneg | now apply rsum_terms_within].
+  - now apply rsum_terms_abs.
+Qed.
